@@ -195,6 +195,9 @@ type sysCase struct {
 	Audio  bool       `json:"audio"`
 	Frames int        `json:"frames"`
 	Inputs []sysInput `json:"inputs,omitempty"`
+	// DebugLCD: the instance is configured with gameboy.Config.DebugLCD (256x256 picture, objects and window
+	// highlighted); a property of that instance alone
+	DebugLCD bool `json:"debug_lcd,omitempty"`
 }
 
 func (c sysCase) rom() ([]byte, error) {
@@ -246,6 +249,10 @@ type sysGB struct {
 }
 
 func sysNewGB(rom []byte, video, withAudio bool, w io.Writer) (g *sysGB, err error) {
+	return sysNewGBCfg(rom, video, withAudio, w, false)
+}
+
+func sysNewGBCfg(rom []byte, video, withAudio bool, w io.Writer, debugLCD bool) (g *sysGB, err error) {
 	defer func() {
 		if r := recover(); r != nil {
 			g, err = nil, fmt.Errorf("construction panicked: %v", r)
@@ -258,7 +265,7 @@ func sysNewGB(rom []byte, video, withAudio bool, w io.Writer) (g *sysGB, err err
 		w = g.Serial
 	}
 	nStreams := len(portaudio.Streams)
-	g.G = gameboy.New(gameboy.Config{RomFilename: g.path, DisableVideoOutput: !video, DisableAudioOutput: !withAudio, SerialWriter: w})
+	g.G = gameboy.New(gameboy.Config{RomFilename: g.path, DisableVideoOutput: !video, DisableAudioOutput: !withAudio, SerialWriter: w, DebugLCD: debugLCD})
 	if video {
 		g.Window = glfw.Current
 	}
@@ -409,7 +416,7 @@ func sysRunGB(c sysCase, keep func(frame int, snap []sysSection)) (tr sysTrace) 
 		tr.Err = err.Error()
 		return
 	}
-	g, err := sysNewGB(rom, c.Video, c.Audio, nil)
+	g, err := sysNewGBCfg(rom, c.Video, c.Audio, nil, c.DebugLCD)
 	if err != nil {
 		tr.Err = err.Error()
 		return
